@@ -159,7 +159,12 @@ def step_equation_cases(seed=0):
                     s.operators.set_link_exponents(A_now)
                 fresh = MeshOperators(s.device.mesh, s.options.sparse_solver, fixed_sites=s.operators.fixed_sites, fix_psi=s.operators.fix_psi)
                 fresh.set_link_exponents(np.array(s.operators.link_exponents, dtype=float))
-                psi1, sq1, dt = s.adaptive_euler_step(0, psi.copy(), sq.copy(), mu.copy(), s.epsilon, 2e-2)
+                # the second history also starts from a step that is refused at first (the equation must hold for the dt that is ANSWERED after the retries)
+                dt_try = 2e-2 if history != "after the vector potential changed on a third of the edges" else 4.0
+                try:
+                    psi1, sq1, dt = s.adaptive_euler_step(0, psi.copy(), sq.copy(), mu.copy(), s.epsilon, dt_try)
+                except RuntimeError:
+                    continue      # retries exhausted: a refusal, not an answer
                 n += 1
                 U = np.exp(-1j * mu * dt)
                 z = U * s.gamma ** 2 / 2 * psi
